@@ -426,6 +426,15 @@ def gen_c09(r):
         cv = [r.choice(pal) for _ in range(max(lens) if lens else 0)]
         arr = [dt, [[[cv[j] if r.random() < 0.85 else r.choice(pal), 1] for j in range(l)] for l in lens]]
     name = r.choice(["colsum", "colsum", "colmean", "colcounts", "colvalues"])
+    if r.random() < 0.12 and sum(lens):
+        from .enc import limbs
+        wdt = r.choice(["i8", "u8"])
+        base = r.choice([2 ** 53, 2 ** 60, 2 ** 62, 5]) if wdt == "i8" else r.choice([2 ** 53, 2 ** 63, 2 ** 64 - 40, 7])
+        sign = -1 if wdt == "i8" and r.random() < 0.3 else 1
+        arr = [wdt, [[limbs(sign * (base + r.randint(0, 9))) for _ in range(l)] for l in lens]]
+        o = opts_for(r, "col")
+        o["hi"] = 0
+        return ["col", "wcolsum", arr, 0], o, False
     j = r.randint(0, max(lens) if lens else 0) if name == "colvalues" else 0
     return ["col", name, arr, j], opts_for(r, "col"), False
 
